@@ -57,6 +57,13 @@ def workload(chk):
             p = write(os.path.join(d, "g%d.h" % i), body + gen_funcs.gen_c(rng, 6)[0])
             fl = [p, "--experimental", "--wrap-static-fns", "--wrap-static-fns-path", os.path.join(d, "g%d_wrap" % i)]
         items.append(("gen%d-%s" % (i, k), fl))
+    # always present: overrides whose patterns overlap (which ABI wins must not vary), several kinds of extern block under merging
+    fixed_hdr = write(os.path.join(d, "fixed_abi.h"), "".join("int evt_%d_cb(int);\nvoid plain_%d(void);\ntypedef void (*evt_%d_fp)(int);\n" % (j, j, j) for j in range(12)) +
+                      "__attribute__((ms_abi)) int w0(int);\nint c0(int);\n__attribute__((ms_abi)) int w1(int);\nint c1(int);\nextern int gv0;\n")
+    for j, ov in enumerate([["--override-abi", "evt_.*=C-unwind", "--override-abi", ".*_cb=system"],
+                            ["--override-abi", ".*=C-unwind", "--override-abi", "evt_.*=system", "--override-abi", ".*_fp=efiapi", "--override-abi", "plain_.*=win64"],
+                            ["--merge-extern-blocks", "--override-abi", "evt_[0-5].*=system", "--override-abi", "evt_.*_cb=C-unwind", "--sort-semantically"]]):
+        items.append(("fixed-overlap-%d" % j, [fixed_hdr] + ov))
     return items
 
 
